@@ -58,6 +58,7 @@ def case_grid(case):
     dx, dy = 10.0, 15.0
     dom = (nx * dx, ny * dy)
     nxe, nye, px, py = sl.padded_size(nx, ny, dom, halo)
+    sl.pollute(nxe, nye, dx, dy)
     z, prof = sl.build_profiles("most_aniso", 3)
     levels = [0, 3]
     rng = core.case_rng(seed, [nx, ny])
